@@ -158,7 +158,7 @@ FromHolP(t) ==
   ELSE <<"o", <<"hol", t>> >>
 
 \* ------------------------------------------------------------------ the conversion contract
-\* r = [h |-> sequence of hypotheses, c |-> proposition]; conds = sequence of the propositions of the supplied conditions
+\* r = [h |-> sequence of hypotheses, c |-> proposition]; conds = sequence of the hypotheses of the supplied condition theorems
 SeqSet(s) == { s[i] : i \in 1..Len(s) }
 IsEquation(r) == IsEq(r.c) /\ WellTyped(r.c)
 LhsOf(r) == A1(r.c)
